@@ -5,6 +5,13 @@ from scenes import *  # noqa
 setup_jax(True)
 from fdtdx.constants import eps0, eta0
 
+def slab_extent(cfg, p):
+    lo, hi = (int(v) for v in p.grid_slice_tuple[p.axis])
+    if cfg.has_nonuniform_grid:
+        return float(np.asarray(cfg.resolved_grid.cell_widths(p.axis), dtype=np.float64)[lo:hi].sum())
+    return float(cfg.uniform_spacing()) * (hi - lo)
+
+
 def coef_case(c):
     spec = c["spec"]
     oc, arrays, cfg, _ = build(spec)
@@ -15,7 +22,8 @@ def coef_case(c):
         out["layers"].append({"axis": int(p.axis), "minus": p.direction == "-", "L": L,
                               "params": {k: float(getattr(p, k)).hex() for k in ("sigma_start", "sigma_end", "sigma_order", "kappa_start", "kappa_end", "kappa_order", "alpha_start", "alpha_end", "alpha_order")},
                               "aE": f(p.pml_a_E), "bE": f(p.pml_b_E), "aH": f(p.pml_a_H), "bH": f(p.pml_b_H),
-                              "thickness_m": float(p._physical_thickness()).hex(), "eta0": float(eta0).hex()})
+                              # physical thickness measured independently of the layer's own helper: extent of its grid slice along its axis
+                              "thickness_m": float(slab_extent(cfg, p)).hex(), "eta0": float(eta0).hex()})
     return out
 
 def absorb_case(c):
